@@ -71,6 +71,10 @@ package template
 //@ func tTag(c context, s []byte) (r context, n int)
 //@   serves C01 C08
 //@   requires c.state <= stateError && c.delim <= delimSpaceOrTagEnd
+//@   ensures progress: c.state == stateTag && len(s) > 0 ==> n > 0 || r.state != c.state
+//@   ensures wfd: c.delim == delimNone && r.delim != delimNone ==> r.state == stateAttr
+//@   ensures wft: (c.state == stateText ==> !isspecial(c.element.name)) && r.state == stateText ==> !isspecial(r.element.name)
+//@   ensures cmt: r.state == stateHTMLCmt ==> c.state == stateHTMLCmt
 //@   ensures wf: r.state <= stateError && r.delim <= delimSpaceOrTagEnd && 0 <= n && n <= len(s)
 //@   ensures range: 0 <= n && n <= len(s)
 //@   ensures allws: skipws(s, 0) == len(s) ==> same(r, c) && n == len(s)
@@ -83,6 +87,10 @@ package template
 //@ func tAttrName(c context, s []byte) (r context, n int)
 //@   serves C01 C08
 //@   requires c.state <= stateError && c.delim <= delimSpaceOrTagEnd
+//@   ensures progress: c.state == stateAttrName && len(s) > 0 ==> n > 0 || r.state != c.state
+//@   ensures wfd: c.delim == delimNone && r.delim != delimNone ==> r.state == stateAttr
+//@   ensures wft: (c.state == stateText ==> !isspecial(c.element.name)) && r.state == stateText ==> !isspecial(r.element.name)
+//@   ensures cmt: r.state == stateHTMLCmt ==> c.state == stateHTMLCmt
 //@   ensures wf: r.state <= stateError && r.delim <= delimSpaceOrTagEnd && 0 <= n && n <= len(s)
 //@   ensures bad: attrstop(s, 0) < 0 ==> r.state == stateError && !isnil(r.err) && n == len(s)
 //@   ensures whole: attrstop(s, 0) == len(s) ==> same(r, c) && n == len(s)
@@ -91,6 +99,10 @@ package template
 //@ func tAfterName(c context, s []byte) (r context, n int)
 //@   serves C01 C08
 //@   requires c.state <= stateError && c.delim <= delimSpaceOrTagEnd
+//@   ensures progress: c.state == stateAfterName && len(s) > 0 ==> n > 0 || r.state != c.state
+//@   ensures wfd: c.delim == delimNone && r.delim != delimNone ==> r.state == stateAttr
+//@   ensures wft: (c.state == stateText ==> !isspecial(c.element.name)) && r.state == stateText ==> !isspecial(r.element.name)
+//@   ensures cmt: r.state == stateHTMLCmt ==> c.state == stateHTMLCmt
 //@   ensures wf: r.state <= stateError && r.delim <= delimSpaceOrTagEnd && 0 <= n && n <= len(s)
 //@   ensures allws: skipws(s, 0) == len(s) ==> same(r, c) && n == len(s)
 //@   ensures eq: skipws(s, 0) < len(s) && s[skipws(s, 0)] == '=' ==> n == skipws(s, 0) + 1 && r.state == stateBeforeValue
@@ -100,6 +112,10 @@ package template
 //@ func tBeforeValue(c context, s []byte) (r context, n int)
 //@   serves C01 C08
 //@   requires c.state <= stateError && c.delim <= delimSpaceOrTagEnd
+//@   ensures progress: c.state == stateBeforeValue && len(s) > 0 ==> n > 0 || r.state != c.state
+//@   ensures wfd: c.delim == delimNone && r.delim != delimNone ==> r.state == stateAttr
+//@   ensures wft: (c.state == stateText ==> !isspecial(c.element.name)) && r.state == stateText ==> !isspecial(r.element.name)
+//@   ensures cmt: r.state == stateHTMLCmt ==> c.state == stateHTMLCmt
 //@   ensures wf: r.state <= stateError && r.delim <= delimSpaceOrTagEnd && 0 <= n && n <= len(s)
 //@   ensures allws: skipws(s, 0) == len(s) ==> same(r, c) && n == len(s)
 //@   ensures dq: skipws(s, 0) < len(s) && s[skipws(s, 0)] == '"' ==> n == skipws(s, 0) + 1 && r.state == stateAttr && r.delim == delimDoubleQuote
@@ -110,6 +126,10 @@ package template
 //@ func tHTMLCmt(c context, s []byte) (r context, n int)
 //@   serves C01 C08
 //@   requires c.state <= stateError && c.delim <= delimSpaceOrTagEnd
+//@   ensures progress: c.state == stateHTMLCmt && len(s) > 0 ==> n > 0 || r.state != c.state
+//@   ensures wfd: c.delim == delimNone && r.delim != delimNone ==> r.state == stateAttr
+//@   ensures wft: (c.state == stateText ==> !isspecial(c.element.name)) && r.state == stateText ==> !isspecial(r.element.name)
+//@   ensures cmt: r.state == stateHTMLCmt ==> c.state == stateHTMLCmt
 //@   ensures wf: r.state <= stateError && r.delim <= delimSpaceOrTagEnd && 0 <= n && n <= len(s)
 //@   ensures found: exists(p, 0, len(s) - 2, matchat(s, p, "-->")) ==> r.state == stateText && r.delim == delimNone && len(r.element.name) == 0 && len(r.attr.name) == 0 && isnil(r.err) && n >= 3 && n <= len(s) && matchat(s, n - 3, "-->") && forall(q, 0, n - 3, !matchat(s, q, "-->"))
 //@   ensures none: !exists(p, 0, len(s) - 2, matchat(s, p, "-->")) ==> same(r, c) && n == len(s)
@@ -117,12 +137,20 @@ package template
 //@ func tAttr(c context, s []byte) (r context, n int)
 //@   serves C01 C08
 //@   requires c.state <= stateError && c.delim <= delimSpaceOrTagEnd
+//@   ensures progress: c.state == stateAttr && len(s) > 0 ==> n > 0 || r.state != c.state
+//@   ensures wfd: c.delim == delimNone && r.delim != delimNone ==> r.state == stateAttr
+//@   ensures wft: (c.state == stateText ==> !isspecial(c.element.name)) && r.state == stateText ==> !isspecial(r.element.name)
+//@   ensures cmt: r.state == stateHTMLCmt ==> c.state == stateHTMLCmt
 //@   ensures wf: r.state <= stateError && r.delim <= delimSpaceOrTagEnd && 0 <= n && n <= len(s)
 //@   ensures same(r, c) && n == len(s)
 
 //@ func tError(c context, s []byte) (r context, n int)
 //@   serves C01 C08
 //@   requires c.state <= stateError && c.delim <= delimSpaceOrTagEnd
+//@   ensures progress: c.state == stateError && len(s) > 0 ==> n > 0 || r.state != c.state
+//@   ensures wfd: c.delim == delimNone && r.delim != delimNone ==> r.state == stateAttr
+//@   ensures wft: (c.state == stateText ==> !isspecial(c.element.name)) && r.state == stateText ==> !isspecial(r.element.name)
+//@   ensures cmt: r.state == stateHTMLCmt ==> c.state == stateHTMLCmt
 //@   ensures wf: r.state <= stateError && r.delim <= delimSpaceOrTagEnd && 0 <= n && n <= len(s)
 //@   ensures same(r, c) && n == len(s)
 
@@ -140,6 +168,10 @@ package template
 //@ func tSpecialTagEnd(c context, s []byte) (r context, n int)
 //@   serves C01 C08
 //@   requires c.state <= stateError && c.delim <= delimSpaceOrTagEnd
+//@   ensures progress: c.state == stateSpecialElementBody && len(s) > 0 ==> n > 0 || r.state != c.state
+//@   ensures wfd: c.delim == delimNone && r.delim != delimNone ==> r.state == stateAttr
+//@   ensures wft: (c.state == stateText ==> !isspecial(c.element.name)) && r.state == stateText ==> !isspecial(r.element.name)
+//@   ensures cmt: r.state == stateHTMLCmt ==> c.state == stateHTMLCmt
 //@   ensures wf: r.state <= stateError && r.delim <= delimSpaceOrTagEnd && 0 <= n && n <= len(s)
 //@   ensures found: isspecial(c.element.name) && exists(p, 0, len(s), endtagat(s, p, c.element.name)) ==> r.state == stateText && r.delim == delimNone && len(r.element.name) == 0 && len(r.attr.name) == 0 && isnil(r.err) && len(r.linkRel) == 0 && len(r.scriptType) == 0 && 0 <= n && n < len(s) && endtagat(s, n, c.element.name) && forall(p, 0, n, !endtagat(s, p, c.element.name))
 //@   ensures none: !(isspecial(c.element.name) && exists(p, 0, len(s), endtagat(s, p, c.element.name))) ==> same(r, c) && n == len(s)
@@ -147,6 +179,10 @@ package template
 //@ func tText(c context, s []byte) (r context, n int)
 //@   serves C01 C08
 //@   requires c.state <= stateError && c.delim <= delimSpaceOrTagEnd
+//@   ensures progress: c.state == stateText && len(s) > 0 ==> n > 0 || r.state != c.state
+//@   ensures wfd: c.delim == delimNone && r.delim != delimNone ==> r.state == stateAttr
+//@   ensures wft: (c.state == stateText ==> !isspecial(c.element.name)) && r.state == stateText ==> !isspecial(r.element.name)
+//@   ensures cmt: r.state == stateHTMLCmt && c.state != stateHTMLCmt ==> n >= 4 && commentat(s, n - 4)
 //@   ensures wf: r.state <= stateError && r.delim <= delimSpaceOrTagEnd && 0 <= n && n <= len(s)
 //@   ensures range: 0 <= n && n <= len(s)
 //@   ensures none: forall(p, 0, len(s), !tagstart(s, p)) ==> same(r, c) && n == len(s)
@@ -488,7 +524,12 @@ package template
 //@ func contextAfterText(c context, s []byte) (r context, n int)
 //@   serves C01 C02 C08 C14
 //@   requires wf: c.state <= stateError && c.delim <= delimSpaceOrTagEnd && (c.delim != delimNone ==> c.state == stateAttr)
+//@   requires wftext: c.state == stateText ==> !isspecial(c.element.name)
 //@   ensures range: 0 <= n && n <= len(s) && r.state <= stateError && r.delim <= delimSpaceOrTagEnd
+//@   ensures wfout: r.delim != delimNone ==> r.state == stateAttr
+//@   ensures wftextout: r.state == stateText ==> !isspecial(r.element.name)
+//@   ensures progress: len(s) > 0 ==> n > 0 || r.state != c.state
+//@   ensures cmtopen: c.state != stateHTMLCmt && r.state == stateHTMLCmt ==> c.state == stateText && n >= 4 && commentat(s, n - 4)
 //@   ensures unqerror: c.delim == delimSpaceOrTagEnd && exists(j, 0, len(s), unquotedbad(s[j]) && forall(k, 0, j + 1, !isdelimend(c.delim, s[k]))) ==> r.state == stateError && !isnil(r.err) && n == len(s)
 //@   ensures open: c.delim != delimNone && forall(k, 0, len(s), !isdelimend(c.delim, s[k])) && !(c.delim == delimSpaceOrTagEnd && exists(j, 0, len(s), unquotedbad(s[j]))) ==> n == len(s) && r.state == stateAttr && r.delim == c.delim && seqeq(r.attr.value, cat(c.attr.value, s)) && same(r.attr.name, c.attr.name) && same(r.element, c.element) && same(r.linkRel, c.linkRel) && r.attr.ambiguousValue == c.attr.ambiguousValue
 //@   ensures closed: c.delim != delimNone && exists(e, 0, len(s), isdelimend(c.delim, s[e]) && forall(k, 0, e, !isdelimend(c.delim, s[k]) && !(c.delim == delimSpaceOrTagEnd && unquotedbad(s[k])))) ==> r.state == stateTag && r.delim == delimNone && len(r.attr.name) == 0 && len(r.attr.value) == 0 && same(r.element, c.element) && isnil(r.err) && exists(e, 0, len(s), isdelimend(c.delim, s[e]) && forall(k, 0, e, !isdelimend(c.delim, s[k])) && n == e + ite(c.delim == delimSpaceOrTagEnd, 0, 1))
@@ -516,3 +557,50 @@ package template
 //@     invariant aName != bName ==> sameview(at(ret, 0), aName) && sameview(at(ret, 1), bName)
 //@     invariant forall(k, 0, len(aNames), sameview(at(ret, ite(aName != bName, 2, 0) + k), at(aNames, k)))
 //@     invariant forall(k, 0, rangeidx, exists(j, ite(aName != bName, 2, 0) + len(aNames), len(ret), sameview(at(ret, j), at(bNames, k))) || exists(k2, 0, len(aNames), seq(at(aNames, k2)) == seq(at(bNames, k))))
+
+//@ func (c context) eq(d context) (r bool)
+//@   serves C01 C02 C04
+//@   ensures spec: r == (c.state == d.state && c.delim == d.delim && seqeq(c.element.name, d.element.name) && seqeq(c.attr.name, d.attr.name) && c.err == d.err && seqeq(c.scriptType, d.scriptType) && seqeq(c.linkRel, d.linkRel))
+
+//@ func (e element) eq(d element) (r bool)
+//@   serves C01 C02 C04
+//@   ensures spec: r == seqeq(e.name, d.name)
+
+//@ func (a attr) eq(b attr) (r bool)
+//@   serves C01 C02 C04
+//@   ensures spec: r == seqeq(a.name, b.name)
+
+//@ func join(a, b context, node parse.Node, nodeName string) (r context)
+//@   serves C01 C04 C05 C08
+//@   option modifies map[seq]bool#dom map[seq]bool#val
+//@   decreases nudgeable(a.state) + nudgeable(b.state)
+//@   ensures erra: a.state == stateError ==> same(r, a)
+//@   ensures errb: a.state != stateError && b.state == stateError ==> same(r, b)
+//@   ensures agree: a.state != stateError && b.state != stateError && r.state != stateError ==> nudgest(a.state) == nudgest(b.state) && nudgedl(a.state, a.delim) == nudgedl(b.state, b.delim) && seqeq(a.scriptType, b.scriptType) && seqeq(a.linkRel, b.linkRel) && a.err == b.err && (seqeq(a.element.name, b.element.name) || seqeq(a.attr.name, b.attr.name))
+//@   ensures state: a.state != stateError && b.state != stateError && r.state != stateError ==> (r.state == a.state && r.delim == a.delim) || (r.state == nudgest(a.state) && r.delim == nudgedl(a.state, a.delim))
+//@   ensures ambiguous: a.state != stateError && b.state != stateError && r.state != stateError && !seqeq(a.attr.value, b.attr.value) ==> r.attr.ambiguousValue
+//@   ensures errcarries: r.state == stateError ==> !isnil(r.err) || a.state == stateError || b.state == stateError
+
+//@ func isComment(s state) (r bool)
+//@   serves C01 C08
+//@   ensures spec: r == (s == stateHTMLCmt)
+
+//@ func (e *escaper) escapeText(c context, n *parse.TextNode) (r context)
+//@   serves C01 C08
+//@   option nopanic
+//@   option termination unchecked
+//@   requires !isnil(e) && !isnil(e.ns) && !isnil(n)
+//@   requires wf: c.state <= stateError && c.delim <= delimSpaceOrTagEnd && (c.delim != delimNone ==> c.state == stateAttr) && (c.state == stateText ==> !isspecial(c.element.name))
+//@   ensures wfout: r.state <= stateError && r.delim <= delimSpaceOrTagEnd && (r.delim != delimNone ==> r.state == stateAttr) && (r.state == stateText ==> !isspecial(r.element.name))
+//@   loop 1
+//@     invariant 0 <= written && written <= i && i <= len(s) && len(b) == slen(seq(b))
+//@     invariant c.state <= stateError && c.delim <= delimSpaceOrTagEnd && (c.delim != delimNone ==> c.state == stateAttr) && (c.state == stateText ==> !isspecial(c.element.name))
+//@   loop 2
+//@     invariant i - 1 <= j && j < i1 && end == i1 && i1 <= len(s) && i <= i1 && written <= i
+//@     invariant forall(k, j + 1, i1, s[k] != '<')
+//@     decreases j - i + 1
+//@   loop 3
+//@     invariant i <= j && j <= end && end <= i1 && i1 <= len(s) && written <= j && entry(written) <= written && len(b) == slen(seq(b))
+//@     invariant rewritten: seqeq(cat(seq(b), sub(s, written, j)), cat(entry(cat(seq(b), sub(s, written, i))), ltupto(s, i, j)))
+//@     hint unfold: seqeq(ltupto(s, i, j), cat(ltupto(s, i, j - 1), ltpiece(s, j - 1)))
+//@     decreases end - j
